@@ -1,0 +1,15 @@
+//go:build verif
+
+// Verification hook for the decoding readers (compiled only with -tags verif).
+// Add-only: lets an external harness call resetIO again on a USED ioDecReader
+// (what Decoder.Reset(newReader) does), keeping its buffer and free list.
+// Nothing here is referenced by the library itself.
+
+package codec
+
+import "io"
+
+// ResetIO re-targets the same ioDecReader onto r (as Decoder.Reset does through resetInIO).
+func (v *VerifIoReader) ResetIO(r io.Reader, bufsize int, maxInitLen int) {
+	v.z.resetIO(r, bufsize, maxInitLen, &v.blist)
+}
